@@ -1,0 +1,14 @@
+//go:build verif
+
+package account
+
+import "github.com/zenon-network/go-zenon/chain/store"
+
+// Verification-only export (build tag verif): the stored front counter of a contract's inbox
+// (account key 7, number of inbox entries the account has received so far). Read-only.
+func SequencerFrontIndexVerif(s store.Account) uint64 {
+	if as, ok := s.(*accountStore); ok {
+		return as.sequencerFrontIndex()
+	}
+	panic("SequencerFrontIndexVerif: not an accountStore")
+}
